@@ -149,6 +149,64 @@ theorem succId_isSome_of_mem_dropLast (cs : List Cell) (k : Nat) (h : k ∈ cs.d
         · obtain ⟨n, hn⟩ := ih (by simpa using h)
           exact ⟨n, by rw [succId]; simp only [hk, if_false]; exact hn⟩
 
+/-- in a list without duplicate ids, `++` goes from index `j` to index `j+1` -/
+theorem succId_getElem (cs : List Cell) (hnd : (cs.map (·.id)).Nodup) (j : Nat) (h : j + 1 < cs.length) :
+    succId cs (cs[j]'(by omega)).id = some (cs[j+1]).id := by
+  induction cs generalizing j with
+  | nil => simp at h
+  | cons c t ih =>
+    have hnd' : (t.map (·.id)).Nodup := by
+      simp only [List.map_cons, List.nodup_cons] at hnd; exact hnd.2
+    cases j with
+    | zero =>
+      cases t with
+      | nil => simp at h
+      | cons d t' => simp [succId]
+    | succ j' =>
+      have hlt : j' + 1 < t.length := by simp at h; omega
+      have hne : c.id ≠ (t[j']'(by omega)).id := by
+        intro e
+        simp only [List.map_cons, List.nodup_cons] at hnd
+        apply hnd.1
+        rw [e]
+        exact List.mem_map.2 ⟨_, List.getElem_mem _, rfl⟩
+      simp only [List.getElem_cons_succ]
+      rw [succId]
+      simp only [hne, if_false]
+      exact ih hnd' j' hlt
+
+/-- … and `--` from index `j+1` back to index `j`: a walk from the end backwards visits the list in
+    reverse order -/
+theorem predId_getElem (cs : List Cell) (hnd : (cs.map (·.id)).Nodup) (j : Nat) (h : j + 1 < cs.length) :
+    predId cs (cs[j+1]).id = some (cs[j]'(by omega)).id :=
+  predId_of_succId cs _ _ hnd (succId_getElem cs hnd j h)
+
+/-- the first cell has no predecessor, the last no successor -/
+theorem predId_head (c : Cell) (t : List Cell) (hnd : ((c :: t).map (·.id)).Nodup) : predId (c :: t) c.id = none := by
+  cases hp : predId (c :: t) c.id with
+  | none => rfl
+  | some k =>
+    exfalso
+    have := predId_tgt_mem_tail _ _ _ hp
+    simp only [List.map_cons, List.nodup_cons] at hnd
+    exact hnd.1 (by simpa using this)
+
+theorem succId_last (cs : List Cell) (c : Cell) (hnd : ((cs ++ [c]).map (·.id)).Nodup) : succId (cs ++ [c]) c.id = none := by
+  induction cs with
+  | nil => simp [succId]
+  | cons d t ih =>
+    have hnd' : ((t ++ [c]).map (·.id)).Nodup := by
+      simp only [List.cons_append, List.map_cons, List.nodup_cons] at hnd; exact hnd.2
+    have hne : d.id ≠ c.id := by
+      intro e
+      simp only [List.cons_append, List.map_cons, List.nodup_cons] at hnd
+      apply hnd.1
+      rw [e]; simp
+    simp only [List.cons_append]
+    rw [succId]
+    simp only [hne, if_false]
+    exact ih hnd'
+
 /-! ## `deref` (`slot_iterator_buf::operator*`) -/
 
 /-- the functor a dereference / loop step would invoke at cell `cur` of impl `i` in state `s`
@@ -470,7 +528,8 @@ theorem walkLoop_deref_copy (f : Nat) (P : Prog) (s : St) (i : Nat) (it : IterBu
 
 /-! ## `emitImpl`: prologue, one loop / one accumulator call, epilogue -/
 
-/-- `~temp_slot_list`, `~signal_impl_holder` (no functor runs here) -/
+/-- `~temp_slot_list`, `~signal_impl_holder`, then the destructors of owned objects whose last owning
+    functor copy died (`collect`); no functor runs here -/
 def emitEpilogue (s : St) (i m : Nat) (o : Outcome) (v : Nat) : St × Outcome × Nat :=
   match aget s.impls i with
   | none => (s.fail "emit: impl destroyed during emission", o, v)
@@ -480,7 +539,7 @@ def emitEpilogue (s : St) (i m : Nat) (o : Outcome) (v : Nat) : St × Outcome ×
     let s := match aget s.impls i with
       | none => s
       | some im3 => setImpl s i { im3 with holders := im3.holders - 1 }
-    (gcImpl s i, o, v)
+    (collect (gcImpl s i), o, v)
 
 theorem emitEpilogue_passes (s : St) (i m : Nat) (o : Outcome) (v : Nat) : (emitEpilogue s i m o v).2 = (o, v) := by
   unfold emitEpilogue
@@ -543,13 +602,34 @@ theorem emitImpl_none (f : Nat) (P : Prog) (s : St) (fl : Flavour) (arg : Nat) (
     emitImpl (f+1) P s fl none arg strat = some (s, .ok, 0) := by
   rw [emitImpl]
 
-/-! ## leaf functors -/
+/-! ## user functors (`leaf`, `owner`) -/
+
+/-- the user functor id of a functor that runs a user body directly (`leaf`, `owner`) -/
+def userFid : Fun → Option Nat
+  | .leaf fid _ => some fid
+  | .owner fid _ _ => some fid
+  | _ => none
+
+/-- `invokeFun` of a user functor, unfolded once -/
+theorem invokeFun_user (f : Nat) (P : Prog) (s : St) (fn : Fun) (fid arg : Nat) (hu : userFid fn = some fid) :
+    invokeFun (f+1) P s fn arg =
+      (match aget P.bodies fid with
+       | none => some (s.log (.call s.depth fid arg), .ok, resultOf fid arg)
+       | some body =>
+         match runBody f P { s.log (.call s.depth fid arg) with depth := s.depth + 1 } body with
+         | none => none
+         | some (s2, o) => some ({ s2 with depth := s2.depth - 1 }, o, resultOf fid arg)) := by
+  cases fn with
+  | leaf fid' ts => simp [userFid] at hu; subst hu; rw [invokeFun]; rfl
+  | owner fid' a b => simp [userFid] at hu; subst hu; rw [invokeFun]; rfl
+  | nest b inner => simp [userFid] at hu
+  | fwd o ts => simp [userFid] at hu
 
 /-- a user functor without a body: logs its call at the current depth and returns `resultOf` -/
 theorem invokeFun_leaf_nobody (f : Nat) (P : Prog) (s : St) (fid arg : Nat) (ts : List Nat)
     (hb : aget P.bodies fid = none) :
     invokeFun (f+1) P s (.leaf fid ts) arg = some (s.log (.call s.depth fid arg), .ok, resultOf fid arg) := by
-  rw [invokeFun]; simp [hb]
+  rw [invokeFun_user f P s _ fid arg rfl]; simp [hb]
 
 /-- a user functor with a body: logs its call at the current depth, runs the body one level deeper,
     restores the depth, and returns `resultOf` whatever the body did -/
@@ -559,7 +639,7 @@ theorem invokeFun_leaf_body (f : Nat) (P : Prog) (s : St) (fid arg : Nat) (ts : 
       (match runBody f P { s.log (.call s.depth fid arg) with depth := s.depth + 1 } body with
        | none => none
        | some (s2, o) => some ({ s2 with depth := s2.depth - 1 }, o, resultOf fid arg)) := by
-  rw [invokeFun]; simp only [hb]; rfl
+  rw [invokeFun_user f P s _ fid arg rfl]; simp only [hb]
 
 /-! ## concrete states for the `example`s of `Props/C13.lean` -/
 
